@@ -6,7 +6,7 @@
 
 using namespace vf;
 
-static const int NSHAPES_JSON = 8, NSHAPES_MP = 7;
+static const int NSHAPES_JSON = 11, NSHAPES_MP = 10;
 
 uint64_t vf_total(const std::string& mode) {
   if (mode == "grid") return 256ull * (NSHAPES_JSON + NSHAPES_MP);
@@ -35,7 +35,10 @@ static Shape shape(int id, bool msgpack, Rng& r) {
       case 4: s.open = "{\"a\":"; s.close = "}"; s.pre = "{\"skip\":"; s.post = ",\"keep\":1}"; s.filter = 1; s.name = "objects inside a member discarded by the filter"; break;
       case 5: s.open = "["; s.close = "]"; s.filter = 2; s.name = "arrays not admitted by an object filter"; break;
       case 6: s.open = " [ "; s.close = " ] "; s.name = "arrays with whitespace"; break;
-      default: s.open = "{'a' : "; s.close = " } "; s.name = "objects, single quotes"; break;
+      case 7: s.open = "{'a' : "; s.close = " } "; s.name = "objects, single quotes"; break;
+      case 8: s.open = "{\"k\":0,\"k\":"; s.close = "}"; s.name = "objects under a repeated key (the value replaces an existing member)"; break;
+      case 9: s.open = "[0,\"s\","; s.close = "]"; s.name = "arrays, the nested one after two siblings"; break;
+      default: s.open = "{\"a\":1,\"b\":"; s.close = ",\"c\":null}"; s.name = "objects, the nested one between two sibling members"; break;
     }
   } else {
     switch (id) {
@@ -45,6 +48,9 @@ static Shape shape(int id, bool msgpack, Rng& r) {
       case 3: s.open = "\x81\xa1k"; s.name = "fixmap"; break;
       case 4: s.open = std::string("\xde\x00\x01\xa1k", 5); s.name = "map16"; break;
       case 5: s.open = std::string("\xdf\x00\x00\x00\x01\xd9\x01k", 8); s.name = "map32, str8 key"; break;
+      case 6: s.open = std::string("\x82\xa1k\x00\xa1k", 6); s.name = "fixmap under a repeated key"; break;
+      case 7: s.open = std::string("\x93\x00", 2); s.close = "\x02"; s.name = "fixarray, the nested one between two siblings"; break;
+      case 8: s.open = std::string("\x82\xa1" "a\x01\xa1" "b", 6); s.name = "fixmap, the nested one after a sibling member"; break;
       default: s.open = "\x91"; s.pre = std::string("\x82\xa4skip", 6); s.post = std::string("\xa4keep\x01", 6); s.filter = 1; s.name = "fixarray inside a member discarded by the filter"; break;
     }
   }
